@@ -428,7 +428,7 @@ def run_case(case):
             rel = [back[i] - mean for i in sorted(back)]
             if ref is None:
                 ref = rel
-            elif any(abs(a - b) > tol for a, b in zip(ref, rel)):
+            elif any(not abs(a - b) <= tol for a, b in zip(ref, rel)):
                 viol.append(('depends-on-internal-zero',
                              'pieces %r relabelled %r: relative offsets %r '
                              'vs %r' % (ids, perm, rel, ref)))
